@@ -203,7 +203,7 @@ theorem go_spec (cls) (N : Nat) :
       have htr' := htr u hu
       cases h1 : aget s.start u <;> cases h2 : aget t.desc u <;>
         cases h3 : aget t'.desc u <;> simp_all [stays, present] <;> (try split_ifs) <;> (try abel)
-    · simp only [if_neg hc, add_zero, zero_add]
+    · simp only [if_neg hc, zero_add]
       have hrec : recOf t u = recOf t' u := by
         by_contra hne
         exact hc (hF u hu hne)
